@@ -378,7 +378,7 @@ package avro
 //@   let b0 := w.buf
 //@   requires w != nil && this != nil && wfc(this) && wfval(this, p)
 //@   ensures [C02,C13,C09] len(b0) <= len(w.buf) && forall k int :: 0 <= k && k < len(b0) ==> w.buf[k] == old(b0[k])
-//@   ensures [C02,C13,C09] base(w.buf) == old(base(w.buf)) || (newobj(w.buf) && !cowned(w.buf))
+//@   ensures [C02,C13,C09] (base(w.buf) == old(base(w.buf)) || (newobj(w.buf) && !cowned(w.buf))) && off(w.buf) == old(off(w.buf))
 //@   modifies w.buf, BH[w.buf]
 //@   emits CW(this, p)
 
@@ -542,11 +542,11 @@ package avro
 //@   let b0 := w.buf
 //@   requires w != nil && wfc(asiface(rc)) && wfval(asiface(rc), p)
 //@   ensures [C02,C13] tlen() == len(rc.fields) && forall k int :: 0 <= k && k < len(rc.fields) ==> tkind(k) == evCW && ta(k) == tag(rc.fields[k].codec) && tb(k) == uint64(data(rc.fields[k].codec)) && tc(k) == uint64(p) + uint64(rc.fields[k].offset)
-//@   ensures len(b0) <= len(w.buf) && (forall k int :: 0 <= k && k < len(b0) ==> w.buf[k] == old(b0[k])) && (base(w.buf) == old(base(w.buf)) || newobj(w.buf))
+//@   ensures len(b0) <= len(w.buf) && (forall k int :: 0 <= k && k < len(b0) ==> w.buf[k] == old(b0[k])) && (base(w.buf) == old(base(w.buf)) || (newobj(w.buf) && !cowned(w.buf))) && off(w.buf) == old(off(w.buf))
 //@   modifies w.buf, BH[w.buf]
 //@   loop 1 invariant -1 <= rangeindex && rangeindex < len(rc.fields) && (len(rc.fields) == 0 ==> rangeindex == -1)
 //@   loop 1 invariant tlen() == rangeindex + 1 && forall k int :: 0 <= k && k <= rangeindex ==> tkind(k) == evCW && ta(k) == tag(rc.fields[k].codec) && tb(k) == uint64(data(rc.fields[k].codec)) && tc(k) == uint64(p) + uint64(rc.fields[k].offset)
-//@   loop 1 invariant w != nil && len(b0) <= len(w.buf) && (forall k int :: 0 <= k && k < len(b0) ==> w.buf[k] == old(b0[k])) && (base(w.buf) == old(base(w.buf)) || newobj(w.buf)) && bhframe(b0)
+//@   loop 1 invariant w != nil && len(b0) <= len(w.buf) && (forall k int :: 0 <= k && k < len(b0) ==> w.buf[k] == old(b0[k])) && (base(w.buf) == old(base(w.buf)) || (newobj(w.buf) && !cowned(w.buf))) && off(w.buf) == old(off(w.buf)) && bhframe(b0)
 //@   loop 1 decreases len(rc.fields) - rangeindex
 
 // ================================================================ filewriter.go / encoder.go (C09, C16, C02)
